@@ -141,3 +141,11 @@ reg("C15", "^TestC15$", q=(200, 4, 900), t=(3000, 16, 3600), batch=300,
          "recording model of the L2 GER contract.",
     note="Trusted: fakechain finality pointer, the recording chain sender. Liveness only as bounded progress at fault-free ticks.",
     design="§3 C15")
+
+reg("C12", "^TestC12$", q=(120, 4, 900), t=(800, 16, 3600), batch=60,
+    technique="property-based testing: rapid-generated joint L1/L2 worlds; all (bridge, covering L1 info leaf) pairs for small worlds through the real gin handlers over the real stores; oracle = reference verifyMerkleProof chain and a coverage predicate",
+    text="Exploration: /claim-proof, /l1-info-tree-index and /injected-l1-info-leaf are invoked through the real handlers (real "
+         "parameter parsing, real JSON) over real bridge, L1 info and injected-GER stores fed by a generated world; proofs must hash "
+         "the bridge leaf to the MER, or to the LER and on to the RER, of the requested L1 info leaf; a returned index must cover the bridge.",
+    note="Trusted: ref.VerifyProof/Frontier/Sparse; world generator keeps the contracts' 'every verification is followed by an info update' discipline.",
+    design="§3 C12")
